@@ -39,6 +39,9 @@ CONTEXTS = ['%s @;' % PRINT, '%s [@];' % PRINT, '%s {k: @};' % PRINT, '%s "" + @
             '%s arr3[@];' % PRINT, 'arr3[@] = 5; %s arr3;' % PRINT, 'arr3[0] = @; %s arr3;' % PRINT, 'holder.k = @; %s holder;' % PRINT,
             '%s w = @; %s w;' % (VAR, PRINT), '%s idf(@);' % PRINT, '%s w3 = @; %s fn2(w3) == w3;' % (VAR, PRINT), '%s -(@);' % PRINT, '%s ~(@);' % PRINT,
             '%s w2 = @; %s c0 = 0; %s (w2 && c0 < 2) { c0 = c0 + 1; %s c0; }' % (VAR, VAR, WHILE, PRINT)]
+CONTEXTS.append('%s n0 = 0; %s (%s c = @; n0 < 2; c = c + 1) { n0 = n0 + 1; %s c; }' % (VAR, FOR, VAR, PRINT))
+CONTEXTS.append('%s c1 = @; %s n1 = 0; %s (n1 < 2) { n1 = n1 + 1; c1 = c1 + 1; %s c1; }' % (VAR, VAR, WHILE, PRINT))
+CONTEXTS.append('%s c2 = @; c2 = c2 - 1; %s c2; c2 = c2 + 1; %s c2;' % (VAR, PRINT, PRINT))
 for op in ['-', '*', '/', '%', '**', '<', '<=', '>', '>=', '==', '!=', '&', '|', '^', '<<', '>>']:
     CONTEXTS.append('%s (@) %s 2;' % (PRINT, op))
     CONTEXTS.append('%s 7 %s (@);' % (PRINT, op))
@@ -80,7 +83,10 @@ def run(env, tier, seed, broken=None):
                 cases.append({'id': cid, 'src': PRE + ctx.replace('@', pexp) + '\n', 'stdin': 'unused\nspare\n', 'producer': pname})
                 ids.append(cid)
             groups.append(('num:%d' % x, ctx, ids))
-    mism, ri, rm = diff_runs(env, cases)
+    big = '%s a = [%s];\n%s (%s i = 0; i < 99; i = i + 1) { a = %s(a, %s); }\n%s n = %s(a);\n%s n;\n%s "count: " + n;\n%s [1000000, 999999 + 1, n];\n%s n == 1000000;\n%s ("" + n) == ("" + 1000000);\n' % (
+        VAR, ', '.join(['0'] * 10000), FOR, VAR, APPEND, ', '.join(['0'] * 10000), VAR, LEN, PRINT, PRINT, PRINT, PRINT, PRINT)
+    cases.append({'id': 'million', 'src': big, 'stdin': '', 'producer': 'len', 'timeout_ms': 30000})
+    mism, ri, rm = diff_runs(env, cases, timeout_ms=30000)
     byid = {c['id']: c for c in cases}
     nontriv = set()
     for what, ctx, ids in groups:
